@@ -137,3 +137,43 @@ func NormEffect(cs []core.Change) string {
 	}
 	return core.NormChanges(out)
 }
+
+// BgRunner runs one background coroutine alone, once, to completion on a database loaded with a snapshot
+// at a fixed clock value: "the single-threaded server's sweep at that instant". Batch sizes are unlimited so
+// that the sequential sweep serves every eligible row (the concurrent one may serve any subset).
+type BgRunner struct {
+	s *Sim
+}
+
+func NewBgRunner(cfg *system.Config, name, dir string) *BgRunner {
+	c := *cfg
+	c.CoroutineMaxSize, c.SubmissionBatchSize, c.CompletionBatchSize = 1000, 1000, 1000
+	c.PromiseBatchSize, c.ScheduleBatchSize, c.TaskBatchSize = 100000, 100000, 100000
+	return &BgRunner{s: New(D{}, &c, Profile{NoShadow: true, Bg: []string{name}}, dir)}
+}
+
+func (q *BgRunner) Close() { q.s.Close() }
+
+// Run returns the row changes (keyed table/key) the sweep makes when run alone on sn at clock tau.
+func (q *BgRunner) Run(sn core.Snapshot, tau int64) (map[string]core.Change, bool) {
+	s := q.s
+	_ = s.K.Store.Stop()
+	s.pending, s.cqes, s.Reqs, s.Ticks, s.Txs = nil, nil, nil, nil, nil
+	s.boot() // a fresh kernel: the background coroutine is due at the first tick
+	core.Load(s.obs, sn)
+	pre := core.Snap(s.obs)
+	s.Now = tau
+	done := false
+	for i := 0; i < 2000; i++ {
+		s.Tick()
+		if s.Quiet() {
+			done = true
+			break
+		}
+	}
+	out := map[string]core.Change{}
+	for _, c := range core.Diff(pre, core.Snap(s.obs)) {
+		out[c.Table+"/"+c.Key] = c
+	}
+	return out, done
+}
